@@ -1,4 +1,6 @@
 import Pcore.Proofs.Parse
+import Pcore.Proofs.LexLoops
+import Pcore.Generated.LexLoops
 /-!
 # C06 — The parser is total: it terminates and fails only with located parse errors
 
@@ -17,6 +19,13 @@ Full statement / proved / missing
                                    Go lexer that does not return or panic consumes a symbol.  `C06_lex_progress`: a token
                                    other than `end` is produced only after consuming at least one symbol;
                                    `C06_lex_suffix`: what is left is a suffix of the input.
+* second tie (regenerated facts) — `C06_loops_exit`: the loop-exit table that `extract/lexloops.go` regenerates from
+                                   `types/lexer.go` on every check (for each `for { … }` loop: per switch arm, the reader
+                                   results it is taken for and how each path through it ends) satisfies `loopsOK`, by
+                                   `decide`; `C06_loops_progress` / `C06_loops_terminate`: for ANY table accepted by `loopOK`
+                                   every iteration that returns to the loop head has consumed a character, so the loop
+                                   terminates.  An arm that falls back to the loop head at end of input without leaving
+                                   the loop (the shape that hung the original lexer) makes the `decide` fail.
 * termination of parsing         — `C06_terminates`: the fuel `2·|input| + 2` that `parseFile` hands to the mutually
                                    recursive `parseItem / arrayLoop / hashLoop` is never exhausted (each recursive call is
                                    preceded by a token read that consumed a symbol), i.e. the recursive descent terminates.
@@ -81,6 +90,43 @@ theorem C06_location (env : Env) (inp : List Sym) (l c : Nat) (h : parse env inp
     refine ⟨hb.1, hb.2.1, ?_⟩
     have := hb.2.2
     omega
+
+/-! ### the regenerated loop-exit table -/
+
+open Pcore.LexLoops in
+/-- obligation over the regenerated table: no lexer loop has an arm that can return to the loop head without having
+    consumed a character -/
+theorem C06_loops_exit : loopsOK Pcore.Generated.lexLoops = true := by decide
+
+open Pcore.LexLoops in
+/-- for any accepted table: an iteration that returns to the loop head leaves strictly fewer characters -/
+theorem C06_loops_progress (l : Loop) (hl : l ∈ Pcore.Generated.lexLoops) (n n' : Nat) (hs : Step l n (some n')) :
+    n' < n := by
+  have h : loopOK l = true := by
+    have := C06_loops_exit
+    simp only [loopsOK, List.all_eq_true] at this
+    exact this l hl
+  exact loopOK_progress l h n n' hs
+
+open Pcore.LexLoops in
+/-- hence every lexer loop terminates -/
+theorem C06_loops_terminate (l : Loop) (hl : l ∈ Pcore.Generated.lexLoops) :
+    ∀ n, Acc (fun n' n => Step l n (some n')) n := by
+  have h : loopOK l = true := by
+    have := C06_loops_exit
+    simp only [loopsOK, List.all_eq_true] at this
+    exact this l hl
+  exact loopOK_terminates l h
+
+open Pcore.LexLoops in
+/-- the table of the original `consumeUnsignedInteger` (empty `case 0:`) is refuted; and the accepted loops are not
+    trivially accepted: `consumeNumber` really has arms that go back to the loop head -/
+example : loopOK { fn := "consumeUnsignedInteger", kind := .peek, arms := [
+    { labels := [.runeError], outs := [.panic] }, { labels := [.zero], outs := [.loop false false] },
+    { labels := [.char], outs := [.panic] }, { labels := [.dflt], outs := [.loop true true, .panic, .ret] }] } = false := by
+  decide
+open Pcore.LexLoops in
+example : (Pcore.Generated.lexLoops.filter fun l => l.arms.any fun a => a.outs.any isLoopOut).length ≥ 8 := by decide
 
 /-! ### non-vacuity: the inputs that broke the original code, on the model of the code as it is now -/
 
